@@ -891,6 +891,14 @@ fn catalogue_inner(prop: &str, t: Tier, seed: u64, out: &mut Vec<Entry>) {
                 // Sonic publishes only d + 2 shifted hiding powers for an enforced bound d (the blinding of the shifted
                 // commitment must stay below max_degree + 2), so a hiding bound above the degree bound is outside its
                 // domain (commit answers HidingBoundToolarge): the degree bound is max(2, h)
+                // a key whose supported hiding bound exceeds its supported degree (hiding bound above the polynomial's degree)
+                if h >= 2 {
+                    let c = mk(Size::uni(5, 1, 3), vec![PolySpec::new(2).hide(h)]);
+                    let c2 = c.clone();
+                    let mut en = e(format!("marlin/h{}-supported1", h), t, "coefficients, point, challenges, all blinding coefficients", format!("hiding bound {}, supported degree 1, supported hiding bound 3", h), move || c07::marlin(&c2)); en.funcs = f.clone(); if quick { en.lim.wall_s = 60.0; } out.push(en);
+                    let c2 = c.clone();
+                    let mut en = e(format!("sonic/h{}-supported1", h), t, "coefficients, point, challenges, all blinding coefficients", format!("hiding bound {}, supported degree 1, supported hiding bound 3", h), move || c07::sonic(&c2)); en.funcs = f.clone(); if quick { en.lim.wall_s = 60.0; } out.push(en);
+                }
                 let d = h.max(2);
                 let cb = mk(Size::uni(5, 4, 3), vec![PolySpec::new(2).hide(h).bound(d)]);
                 let c2 = cb.clone();
